@@ -610,6 +610,33 @@ func (p *Printer) Def(df Def) []string {
 		d.add("let " + v.Name + " =")
 		p.rhs(d, v.Rhs, 0)
 		return d.lines
+	case RecordDecl:
+		return p.recordDecl("type ", v)
+	case UnionDecl:
+		return p.unionDecl("type ", v)
+	case TypeGroup:
+		var out []string
+		for i, d := range v.Decls {
+			kw := "type "
+			if i > 0 {
+				kw = "and "
+			}
+			switch dd := d.(type) {
+			case RecordDecl:
+				out = append(out, p.recordDecl(kw, dd)...)
+			case UnionDecl:
+				out = append(out, p.unionDecl(kw, dd)...)
+			}
+		}
+		return out
+	case PkgInfoDecl:
+		out := []string{"package_info " + v.Pkg + " =" + p.eol()}
+		ind := strings.Repeat(" ", p.blockIndent())
+		for _, ln := range v.Lines {
+			out = p.declDecor(out, ind)
+			out = append(out, ind+ln+p.declLineEnd())
+		}
+		return out
 	case FuncDef:
 		d := newDoc(0)
 		d.add("let " + v.Name + " " + paramStr(v.Params))
@@ -625,6 +652,65 @@ func (p *Printer) Def(df Def) []string {
 		return d.lines
 	}
 	panic(fmt.Sprintf("fo: print: unknown def %T", df))
+}
+
+func tparams(ps []string) string {
+	if len(ps) == 0 {
+		return ""
+	}
+	return "<" + strings.Join(ps, ", ") + ">"
+}
+
+// declDecor: blank lines and own-line comments between fields / cases / package_info lines
+func (p *Printer) declDecor(out []string, ind string) []string {
+	for i := p.choose("decl-blank-lines-before", 3); i > 0; i-- {
+		out = append(out, "")
+	}
+	switch p.choose("decl-comment-before", 4) {
+	case 1:
+		out = append(out, ind+"// c")
+	case 2:
+		out = append(out, "// c")
+	case 3:
+		out = append(out, ind+"/* c */")
+	}
+	return out
+}
+
+func (p *Printer) declLineEnd() string {
+	return []string{"", "  ", " // c", " /* c */"}[p.choose("decl-line-end", 4)]
+}
+
+func (p *Printer) recordDecl(kw string, v RecordDecl) []string {
+	head := kw + v.Name + tparams(v.TParams) + " = {"
+	if p.choose("record-fields-per-line", 2) == 0 {
+		var fs []string
+		for _, f := range v.Fields {
+			fs = append(fs, f.Name+": "+f.Type)
+		}
+		return []string{head + strings.Join(fs, "; ") + "}"}
+	}
+	out := []string{head + p.declLineEnd()}
+	ind := strings.Repeat(" ", p.blockIndent())
+	for _, f := range v.Fields {
+		out = p.declDecor(out, ind)
+		out = append(out, ind+f.Name+": "+f.Type+";"+p.declLineEnd())
+	}
+	return append(out, "}")
+}
+
+func (p *Printer) unionDecl(kw string, v UnionDecl) []string {
+	out := []string{kw + v.Name + tparams(v.TParams) + " =" + p.declLineEnd()}
+	ind := strings.Repeat(" ", []int{2, 0, 4}[p.choose("case-column", 3)])
+	for _, c := range v.Cases {
+		out = p.declDecor(out, ind)
+		ln := ind + "| " + c.Name
+		if c.Payload != "" {
+			ln += " of " + c.Payload
+		}
+		out = append(out, ln+p.declLineEnd())
+	}
+	return out
 }
 
 // Program renders all definitions separated by one blank line (plus layout decorations).
